@@ -94,9 +94,18 @@ fn oracle(case: &Case, obs: &mut Obs) -> Result<(), Fail> {
 	obs.count("lookups", lookups);
 
 	// streams over generated boxes
-	for bs in &case.boxes {
+	for (i, bs) in case.boxes.iter().enumerate() {
 		let bbox: TileBBox = resolve_box(bs, &cov, 40);
 		let desc = format!("{bbox:?}");
+		// before every second box: a consumer opens the stream over the previous box, polls it a
+		// few times - ready or not - and goes away; the overlay may be in the middle of a cell
+		if i % 2 == 1 {
+			let prev: TileBBox = resolve_box(&case.boxes[i - 1], &cov, 40);
+			match source.stream_abandon_polls(prev.clone(), 1 + (i * 3 + case.boxes.len()) % 7) {
+				Ok((_, pending)) => obs.label(if pending > 0 { "abandoned-stream:while-pending" } else { "abandoned-stream:never-pending" }.to_string()),
+				Err(p) => return Err(Fail::from_panic(&format!("stream over {prev:?}, dropped after a few polls"), &p)),
+			}
+		}
 		let got = match source.stream(bbox.clone()) {
 			Ok(v) => v,
 			Err(p) => return Err(Fail::from_panic(&format!("stream over {desc}"), &p)),
@@ -159,7 +168,7 @@ fn main() {
 	let mut check = Check::from_args(
 		"C08",
 		"exploration",
-		"from_overlayed over 2-4 sources (in-memory readers, containers of every format written by the repository or by the harness encoders) placed around a common anchor so that coverages overlap partially, nest or are disjoint, with different zoom ranges, mixed compressions (payloads really compressed), optional filter_zoom/filter_bbox per source and around the overlay; oracle = reference model 'first source in list order that has the tile', compared after decompressing with the declared compression, for lookups over all tile coordinates + neighbours and for streams over generated boxes; declared compression = common compression or none; coverage = bounding union of the sources' coverages; non-trivial = some coordinate where the first source lacks the tile and a later one has it, and some coordinate where two sources hold different payloads",
+		"from_overlayed over 2-4 sources (in-memory readers, containers of every format written by the repository or by the harness encoders) placed around a common anchor so that coverages overlap partially, nest or are disjoint, with different zoom ranges, mixed compressions (payloads really compressed), optional filter_zoom/filter_bbox per source and around the overlay; oracle = reference model 'first source in list order that has the tile', compared after decompressing with the declared compression, for lookups over all tile coordinates + neighbours and for streams over generated boxes (before every second box a consumer opens the stream over the previous box, polls it 1-7 times, ready or not, and drops it); declared compression = common compression or none; coverage = bounding union of the sources' coverages; non-trivial = some coordinate where the first source lacks the tile and a later one has it, and some coordinate where two sources hold different payloads",
 	);
 	vt::engine::watchdog(3600);
 	let reg: Vec<Case> = check.regression_cases("overlays");
